@@ -165,12 +165,12 @@ def part_wit(pid):
 def part_bw(pid):
     def run(ctx):
         from . import rules_bw
-        rows = [r for r in rules_bw.ROWS if pid in r["props"]]
+        rows = [r for r in rules_bw.ROWS if pid is None or pid in r["props"]]
         inl = sorted({r["fn"] for r in rows if r["mod"] == "inl"})
 
         def gm(kind, fn):
             return module("release", kind, inl if kind == "inl" else None)
-        n = rules_bw.check(ctx, gm, [pid])
+        n = rules_bw.check(ctx, gm, [pid] if pid else None)
         ctx.explanation += ("R-BW: every store through the output buffer parameter (and every call receiving &buf[index]) is explored with relation "
                             "facts between the index and the documented bound, learnt from branch conditions on the same SSA values and carried through "
                             "phi copies: the write must only happen where index < bound (<= where the capacity is bound+1). ")
@@ -186,6 +186,20 @@ def part_cform(pid):
                             "out-value, a bit field) for the whole finite domain of those leaves and compared with the documented closed form. ")
         ctx.floor("R-CFORM", "closed-form instances for %s" % pid, n, 1)
     return run
+
+
+def part_ovf(ctx):
+    from . import rules_ovf
+    n = rules_ovf.check(ctx, module("release", "ssa"), "release")
+    ctx.explanation += ("R-OVF: the functions that call the repository's own overflow predicates are explored with free (non-negative) coordinate "
+                        "inputs; at every nsw add/sub/mul/shl the operand ranges learnt from exactly interpreted path conditions must exclude signed wrap. ")
+    ctx.floor("R-OVF", "overflow-checked helpers", n, 2)
+
+
+def part_errdisc(ctx):
+    from . import rules_errdisc
+    rules_errdisc.check(ctx, module("release", "ssa"), "release")
+    ctx.explanation += ("R-ERRDISC: every call of an H3Error-returning function uses the returned code, except the frozen, individually justified (caller, callee) exceptions. ")
 
 
 def part_fmt(ctx):
@@ -209,14 +223,14 @@ PARTS = {
     "C01": [part_guards("C01"), part_tables(["T7"], {"T7": ["isBaseCellPentagonArr"]}), part_wit("C01")],
     "C02": [part_guards("C02"), part_tables(["T6", "T16"]), part_wit("C02")],
     "C03": [part_guards("C03"), part_tables(["T7", "T4", "T5", "T9"], {"T7": ["pentagonCount", "res0CellCount", "getRes0Cells", "getPentagons", "baseCellNeighbors:rows", "baseCellNeighbor60CCWRots:rows"]}), part_cform("C03"), part_wit("C03")],
-    "C04": [part_guards("C04"), part_cform("C04"), part_wit("C04")],
+    "C04": [part_guards("C04"), part_cform("C04"), part_tables(["T7"], {"T7": ["isBaseCellPentagonArr"]}), part_wit("C04")],
     "C05": [part_guards("C05"), part_tables(["T1", "T2", "T3", "T10", "T11", "T7"], {"T7": ["baseCellNeighbors", "baseCellNeighbor60CCWRots"]}), part_cform("C05"), part_wit("C05")],
     "C06": [part_guards("C06"), part_bw("C06")],
     "C08": [part_tables(["T5", "T9", "T13"]), part_cform("C08"), part_wit("C08")],
-    "C09": [part_guards("C09"), part_tables(["T1", "T2", "T3", "T10", "T14"]), part_wit("C09")],
+    "C09": [part_guards("C09"), part_tables(["T1", "T2", "T3", "T10", "T14"]), part_ovf, part_wit("C09")],
     "C10": [part_guards("C10"), part_tables(["T8", "T12"]), part_cform("C10"), part_wit("C10")],
     "C11": [part_guards("C11"), part_tables(["T8", "T12", "T7"], {"T7": ["pentagonDirectionFaces"]}), part_wit("C11")],
-    "C12": [part_guards("C12"), part_ret, part_cform("C12"), part_wit("C12")],
+    "C12": [part_guards("C12"), part_ret, part_errdisc, part_ovf, part_bw(None), part_cform("C12"), part_wit("C12")],
     "C13": [part_guards("C13"), part_cform("C13"), part_wit("C13")], "C14": [part_guards("C14"), part_bw("C14"), part_cform("C14")], "C15": [part_guards("C15"), part_bw("C15"), part_wit("C15")],
     "C19": [part_tables(["T5", "T9"]), part_bw("C19"), part_cform("C19"), part_wit("C19")],
     "C20": [part_guards("C20"), part_fmt, part_wit("C20")],
